@@ -237,6 +237,13 @@ class SigmaBase64Modifier(SigmaValueModifier[SigmaString, SigmaString]):
                 "Base64 encoding of strings with wildcards is not allowed",
                 source=self.source,
             )
+        if val.contains_placeholder():
+            # The text the placeholder stands for isn't known yet; encoding its name would bury
+            # the placeholder in the value for good.
+            raise SigmaValueError(
+                "Base64 encoding of strings with placeholders is not allowed",
+                source=self.source,
+            )
         return SigmaString(b64encode(bytes(val)).decode())
 
 
@@ -253,6 +260,11 @@ class SigmaBase64OffsetModifier(SigmaValueModifier[SigmaString, SigmaExpansion])
         if val.contains_special():
             raise SigmaValueError(
                 "Base64 encoding of strings with wildcards is not allowed",
+                source=self.source,
+            )
+        if val.contains_placeholder():
+            raise SigmaValueError(
+                "Base64 encoding of strings with placeholders is not allowed",
                 source=self.source,
             )
         val_bytes = bytes(val)  # offsets depend on the length in bytes, not in characters
